@@ -520,7 +520,7 @@ def run_equiv(case):
     if len(traj) == 2:
         (t1, d1), (t2, d2) = traj
         if d1.shape != d2.shape or len(t1) != nsteps + 1:
-            bad.add("g", "euler: number of samples differs between grid and graph", grid=list(d1.shape), graph=list(d2.shape))
+            bad.add("g", "euler: number of samples differs between grid and graph", on_grid=list(d1.shape), on_graph=list(d2.shape))
         elif not (np.isfinite(d1).all()):
             cnt["g_euler_nonfinite_skipped"] += 1
         else:
@@ -531,12 +531,12 @@ def run_equiv(case):
             if not np.isfinite(d2).all() or float(err.max()) > TOL * scale:
                 k = np.unravel_index(int(np.nanargmax(np.where(np.isfinite(err), err, np.inf))), err.shape)
                 bad.add("g", "euler: trajectory on grid_to_graph(space) differs from the trajectory on the grid",
-                        at={"sample": int(k[0]), "species": int(k[1]), "cell": int(k[2])}, grid=float(d1[k]),
-                        graph=float(d2[k]), scale=scale)
+                        at={"sample": int(k[0]), "species": int(k[1]), "cell": int(k[2])}, on_grid=float(d1[k]),
+                        on_graph=float(d2[k]), scale=scale)
             else:
                 worst = float(err.max()) / scale
             if np.abs(t1 - t2).max() > TOL * abs(t1[-1]):
-                bad.add("g", "euler: sample times differ between grid and graph", grid=t1.tolist()[:4], graph=t2.tolist()[:4])
+                bad.add("g", "euler: sample times differ between grid and graph", on_grid=t1.tolist()[:4], on_graph=t2.tolist()[:4])
     if case["python"] and periodic_lengths_ok(sp):
         usys = gen.mild_sys(r)
         ach = r.random() < 0.5
@@ -554,7 +554,7 @@ def run_equiv(case):
                 for k in range(S * n):
                     if not (math.isfinite(va[k]) and math.isfinite(vb[k])) or abs(va[k] - vb[k]) > TOL * mag[k] + 1e-300:
                         bad.add("g", "kinetics: compute_dstatedt on the graph differs from the grid", entry=k,
-                                species=k // n, cell=k % n, grid=va[k], graph=vb[k], sum_abs_terms=mag[k],
+                                species=k // n, cell=k % n, on_grid=va[k], on_graph=vb[k], sum_abs_terms=mag[k],
                                 apply_chemostats=ach)
                         break
         except Exception as e:
@@ -673,7 +673,7 @@ def main():
             if v.get("bad_total", 0) > len(v["bad"]):
                 run.count("violations_not_written_out", v["bad_total"] - len(v["bad"]))
             for b in v["bad"]:
-                run.violation("(%s) %s" % (b["monitor"], b["what"].split(":")[0]), b,
+                run.violation("(%s) %s" % (b["monitor"], b["what"][:72]), b,
                               mech={"what": b["what"], "monitor": b["monitor"], "call": b.get("call"),
                                     "form": b.get("form"), "error": b.get("error", "")})
     run.exhaustive = bool(complete and run.monitors.get("grids_completed", 0) == len(grids))
